@@ -1004,7 +1004,7 @@ pub fn long_family(rng: &mut Rng, k: usize) -> TreeSpec {
     // 2gp (slot 0) and the reorganisation unwinds it (previous slot = last slot of the ring)
     let wrap = k % 8 == 7;
     let m = if wrap { 2 * gp as usize + 1 } else { (2 * gp as usize) + 2 + (k / 4) % 4 }; // main chain blocks after genesis
-    let d = if wrap { 3 } else { (k / 3) % (gp as usize + 2) }; // fork depth below the main tip
+    let d = if wrap { 3 } else { (k / 3) % (gp as usize + 4) }; // fork depth below the main tip (up to gp + 3: side blocks at and below latest - gp)
     let s = if wrap { 4 } else { d + [1usize, 2, 0, 3][(k / 5) % 4] }; // side branch length
     // variant "early sibling": a second block at id 3, off-chain; it must be purged together with
     // the chain block of that id once the tip reaches 3 + 2gp
@@ -1223,6 +1223,17 @@ pub async fn run_property(profile: &Profile, args: &Args) {
                 eprintln!("replaying case {}: {}", case_no, spec_json(&t, &order));
             }
             let orphans_now = profile.allow_orphans && rng.chance(1, 5);
+            if loading && oi == 1 {
+                // inert orphans at chosen distances from the tip: tree order, but one block that has
+                // children is delivered last, so its descendants arrive while their parent is unknown
+                // (answers Retry / Invalid around the boundary id = latest - genesis_period)
+                let with_children: Vec<usize> = (1..t.blocks.len()).filter(|j| parents.iter().any(|p| *p == Some(*j))).collect();
+                if !with_children.is_empty() {
+                    let j = with_children[rng.below(with_children.len() as u64) as usize];
+                    order = (0..t.blocks.len()).filter(|x| *x != j).collect();
+                    order.push(j);
+                }
+            }
             if profile.allow_orphans && !orphans_now && !loading {
                 // no orphan deliveries in this history: repair the order instead of dropping blocks
                 order = repair_order(&order, &parents);
